@@ -16,7 +16,10 @@ class ToolError(Exception):
 def sh(cmd, timeout=3600, cwd=None, env=None):
     e = dict(os.environ)
     if env: e.update(env)
-    p = subprocess.run(cmd, shell=isinstance(cmd, str), cwd=cwd, env=e, stdout=subprocess.PIPE, stderr=subprocess.STDOUT, timeout=timeout, text=True, errors='replace')
+    try:
+        p = subprocess.run(cmd, shell=isinstance(cmd, str), cwd=cwd, env=e, stdout=subprocess.PIPE, stderr=subprocess.STDOUT, timeout=timeout, text=True, errors='replace')
+    except subprocess.TimeoutExpired:
+        raise ToolError('timeout after %ds: %s' % (timeout, str(cmd)[:200]))
     return p.returncode, p.stdout
 
 def build_harness(real=False):
@@ -63,6 +66,8 @@ def tlc_mc(cfg, module, workers=16, timeout=1500, overrides=None, extra=''):
         m = re.search(r'Invariant (\S+) is violated', l)
         if m: res['violated'] = m.group(1)
         if 'Model checking completed. No error has been found' in l: res['complete'] = True
+        if 'Temporal properties were violated' in l: res['violated'] = 'temporal property'
+        if 'Checking temporal properties for the complete state space' in l: res['liveness_checked'] = True
         if l.startswith('<<"OUTCOME"'): res['outcomes'].append(l)
     if rc == 124: res['timeout'] = True
     if not res['complete'] and not res['violated'] and rc != 124:
